@@ -146,7 +146,9 @@ func (l *Log) segment(i uint64) *segment {
 		if i > s.prevIndex {
 			return s
 		}
-		if s == l.first {
+		if s == l.first || s.prev == nil {
+			// s.prev is nil when this is a view whose first segments
+			// have been removed by RemoveLTE since it was taken
 			return nil
 		}
 		s = s.prev
